@@ -219,9 +219,31 @@ class C05(Oracle):
 
 
 # =============================================================================== C06
+def change_point_positions(v):
+    """Text indices before which the non-optimised rendering writes an SGR sequence: every change
+    point of the value's table is visible this way (public API only).  'No change point at j'
+    implies 'no setting begins at j'."""
+    out = set()
+    pos = 0
+    for ev in T.tokenize(v.to_str(optimize=False, reset_start=False, reset_end=False)):
+        if ev[0] == 'char':
+            pos += 1
+        else:
+            out.add(pos)
+    return out
+
+
 class C06(Oracle):
     prop = 'C06'
     own_kinds = frozenset({'apply'})
+
+    def before(self, ctx):
+        if ctx.kind == 'apply' and ctx.recv is not None:
+            try:
+                ok = '\x1b' not in ctx.pre.text and all(codes.valid_g(c) for cell in ctx.pre.cells for c in cell)
+                ctx.pre_cps = change_point_positions(ctx.recv) if ok else None
+            except T.Undefined:
+                ctx.pre_cps = None
 
     def step(self, ctx):
         if ctx.kind != 'apply':
@@ -261,11 +283,18 @@ class C06(Oracle):
                 else:
                     ctx.world.count('skipped:apply_eff_not_wf')
             else:
-                if i > a and not begun and ctx.pre_objs is not None:
-                    prev = ctx.pre_objs[i - 1]
-                    begun = any(all(x is not y for y in prev) for x in ctx.pre_objs[i])
-                if ctx.pre_objs is None:
-                    begun = begun or i > a
+                # "for as long as no other setting begins in between": a setting can only begin at a
+                # change point of the receiver; without structural information be conservative
+                # Within one string distinct spans are distinct setting objects, so a setting begins at
+                # i when i is a change point AND the character reports an object its predecessor does
+                # not (a pure stop/restart of the same objects is not a new setting).
+                cps = getattr(ctx, 'pre_cps', None)
+                if i > a and not begun:
+                    if cps is None or ctx.pre_objs is None:
+                        begun = True
+                    elif i in cps:
+                        prev = ctx.pre_objs[i - 1]
+                        begun = any(all(x is not y for y in prev) for x in ctx.pre_objs[i])
                 if not begun:
                     if cell_wf:
                         want_cell = tuple(pre.cells[i]) + new
@@ -418,6 +447,8 @@ class C12(Oracle):
         # fmt
         sp = op['spec']
         if sp is not None and 'raw' in sp:
+            if sp['raw'] not in badops.BAD_STRING_SPECS:
+                return   # errors in the ansi part are C09's business (the call may succeed on an empty string)
             # a spec outside the grammar raises ValueError
             require(isinstance(ctx.exc, ValueError), 'fmt.invalid_spec_raises_valueerror', spec=sp['raw'],
                     got=None if ctx.exc is None else '%s: %s' % (type(ctx.exc).__name__, ctx.exc))
@@ -779,7 +810,7 @@ class C09(Oracle):
     with_assertions = True
 
     def before(self, ctx):
-        if ctx.kind == 'bad' and ctx.recv is not None:
+        if (ctx.kind == 'bad' or (ctx.kind == 'fmt' and 'raw' in (ctx.op.get('spec') or {}))) and ctx.recv is not None:
             ctx.c09_renders_before = renders8(ctx.recv)
             ctx.c09_snapshot = ctx.recv.copy() if isinstance(ctx.recv, AnsiString) else None
 
@@ -792,11 +823,12 @@ class C09(Oracle):
             msg = str(e)
             require(not (isinstance(e, ValueError) and _SELF_CHECK_MSG in msg), 'self_check_failed_inside_operation',
                     op=ctx.op, exc=msg)
-            if k == 'bad':
-                allowed = badops.allowed(ctx.op)
+            is_bad_spec = k == 'fmt' and ctx.op.get('spec') is not None and 'raw' in ctx.op['spec']
+            if k == 'bad' or is_bad_spec:
+                allowed = badops.allowed(ctx.op) if k == 'bad' else badops.TV
                 require(isinstance(e, allowed), 'documented_error_type', op=ctx.op,
                         got='%s: %s' % (type(e).__name__, msg), allowed=[t.__name__ for t in allowed])
-                w.count('fault:' + ctx.op['what'])
+                w.count('fault:' + (ctx.op['what'] if k == 'bad' else 'format_spec_op'))
                 # after a raised error the receiver is unchanged
                 b, a_ = ctx.pre_all[ctx.recv_slot], ctx.post_all[ctx.recv_slot]
                 require(a_ is not None and a_.key() == b.key(), 'failed_call_leaves_receiver_unchanged', op=ctx.op,
